@@ -1,9 +1,9 @@
 package c06
 
 // Facts extractor of C06: regenerates lean/Golib/Gen/FactsC06.lean from algz/trie.go on
-// every run: the statements of mergeScopes (with the F4 repair: step back after a merge),
-// the re-assembly loops of Replace / ReplaceWithMask, and — because both sit on `find` —
+// every run: the re-assembly loops of Replace / ReplaceWithMask, and — because both sit on `find` —
 // the decoder and the automaton loop of `find` (shared with the C05 extractor).
+// (mergeScopes itself is translated by go2lean and tied by c06_trans_mergeScopes since wave 9: no text facts.)
 // Golib/Proof/C06Facts.lean compares each with the literal the model
 // (Golib/Model/C06Replace.lean) mirrors.
 
@@ -15,52 +15,11 @@ import (
 
 func facts(repo string) (string, error) {
 	return c05.Extract("C06", repo, func(x c05.X) {
-		emitMerge(x)
 		emitReplace(x, "*Trie.Replace", "repl")
 		emitReplace(x, "*Trie.ReplaceWithMask", "mask")
 		c05.EmitDecodeFacts(x)
 		c05.EmitFindFacts(x)
 	})
-}
-
-func emitMerge(x c05.X) {
-	s, w := x.S, x.W
-	fn := "*Trie.mergeScopes"
-	b := x.Body(fn)
-	if len(b.List) != 3 {
-		x.Fail("%s: %d top-level statements, expected 3", fn, len(b.List))
-	}
-	loop := x.OnlyFor(fn, b)
-	w.Str("mergePrologue", "mergeScopes: first statement", s.Render(b.List[0]))
-	w.Str("mergeEpilogue", "mergeScopes: last statement", s.Render(b.List[2]))
-	w.Str("mergeLoop", "mergeScopes: loop header `init; cond; post` (no post: i moves in the body)", x.ForHeader(loop))
-	if len(loop.Body.List) != 1 {
-		x.Fail("%s: loop body has %d statements, expected 1", fn, len(loop.Body.List))
-	}
-	ifs, ok := loop.Body.List[0].(*ast.IfStmt)
-	if !ok {
-		x.Fail("%s: loop body is not an if statement", fn)
-	}
-	c, _, e := x.IfParts(ifs)
-	w.Str("mergeOverlapCond", "mergeScopes: the overlap test (strict)", c)
-	w.Strs("mergeElse", "mergeScopes: the no-overlap branch", e)
-	then := ifs.Body.List
-	if len(then) < 3 {
-		x.Fail("%s: overlap branch has %d statements, expected at least 3", fn, len(then))
-	}
-	c1, t1, e1 := x.IfParts(then[0])
-	c2, t2, e2 := x.IfParts(then[1])
-	if e1 != nil || e2 != nil {
-		x.Fail("%s: hull updates with else branches", fn)
-	}
-	w.Str("hullStopCond", "mergeScopes: condition of the first hull update", c1)
-	w.Strs("hullStopThen", "mergeScopes: the first hull update", t1)
-	w.Str("hullStartCond", "mergeScopes: condition of the second hull update", c2)
-	w.Strs("hullStartThen", "mergeScopes: the second hull update", t2)
-	w.Str("mergeDelete", "mergeScopes: the deletion of scopes[i+1]", s.Render(then[2]))
-	w.Strs("mergeAfterDelete", "mergeScopes: the statements after the deletion inside the overlap branch (F4: step back)", c05.RenderList(s, then[3:]))
-	stepBack := len(then) == 4 && s.Render(then[3]) == "if i > 0 { i-- }"
-	w.Bool("stepBack", "mergeScopes: the statement right after the deletion is `if i > 0 { i-- }` and nothing follows it (model: `mergeLoop true`)", stepBack)
 }
 
 func emitReplace(x c05.X, fn, sfx string) {
